@@ -80,7 +80,7 @@ Cat(ss) == FlattenSeq(ss)
 AbsInit(cfg) ==
   [cfg |-> cfg, sp |-> EmptyFn, rt |-> EmptyFn, ctx |-> EmptyFn, sc |-> EmptyFn, ls |-> EmptyFn,
    att |-> EmptyFn, exp |-> {}, opt |-> {}, dl |-> {}, never |-> {}, claims |-> {}, hints |-> {}, cyc |-> {},
-   fl |-> EmptyFn, cmds |-> EmptyFn, cut |-> {}, qs |-> {}, pk |-> EmptyFn, exc |-> {}, got |-> <<>>, gotrecs |-> <<>>, tm |-> EmptyFn, ad |-> EmptyFn, polled |-> EmptyFn, ovl |-> FALSE, free |-> {}, viol |-> <<>>]
+   fl |-> EmptyFn, cmds |-> EmptyFn, cut |-> {}, qs |-> {}, pk |-> EmptyFn, exc |-> {}, got |-> <<>>, gotrecs |-> <<>>, tm |-> EmptyFn, ad |-> EmptyFn, polled |-> EmptyFn, ovl |-> FALSE, free |-> {}, heap |-> None, viol |-> <<>>]
 
 Recording(a) == a.cfg.enabled /\ a.cfg.ready
 
@@ -661,8 +661,8 @@ Stats(a, e) ==
   LET open == {a.rt[r].cid : r \in {x \in DOMAIN a.rt : (a.rt[x].st = "open" \/ x \in AllParked(a)) /\ a.rt[x].smp}}
       extra == (Rng(e.active) \ open) \ a.cfg.foreign
       a1 == IF extra # {} THEN ViolK(a, "C08", "retained-trace-state", extra, IF extra \subseteq a.cut THEN "cut" ELSE None) ELSE a IN
-  IF ~Recording(a) THEN a       \* no reporter installed: there is no collector to consume anything
-  ELSE IF e.deadrx > 0 THEN Viol(a1, "C08", "retained-dead-thread", e.deadrx) ELSE a1
+  IF ~Recording(a) THEN [a EXCEPT !.heap = F(e, "heap")]       \* no reporter installed: there is no collector to consume anything
+  ELSE [(IF e.deadrx > 0 THEN Viol(a1, "C08", "retained-dead-thread", e.deadrx) ELSE a1) EXCEPT !.heap = F(e, "heap")]
 
 RetAny(a, e) ==
   IF Has(e, "panic") THEN Viol(a, "C07", "panic", <<e.op, e.panic>>) ELSE a
